@@ -58,7 +58,11 @@ def run(ctx):
     from .sentinels import sentinel_rule
     sentinel_rule(prog, r2, [f for f in prog.funcs.values() if "asn1-tools/" in f.relfile],
                   {"ber_fetch_tag": (0, -1), "ber_fetch_length": (0, -1)})
-    return [r1, r2, r20_3(prog), r20_4(prog)]
+    # R20.5: unber and enber terminate on arbitrary input: exact rule over every loop of the tools and of the BER
+    # routines they link
+    from . import termination
+    r5 = termination.rule_for(prog, "R20.5", "unber, enber and the BER routines they use", set(prog.funcs.keys()), 30)
+    return [r1, r2, r20_3(prog), r20_4(prog), r5]
 
 
 def r20_4(prog):
